@@ -4,23 +4,23 @@ CONSTANTS
   TypeTab <- RealTypes
   GraphLo = 33 GraphHi = 126 MaxBits = 64
   GPrec = 6 ByteMax = 255 DecLimit = 127
-  PrintTypes = {"b", "n", "q", "i", "x", "t", "l", "f", "d", "e"}
+  PrintTypes = {"b", "q", "i", "x", "t", "f", "d", "e"}
   IntFormats <- IntFormatsG
   FltFormats <- FltFormatsG
-  Lefts = {2, 6, 24} FltLefts = {2, 6, 24}
-  FmtAlphabet = {32, 102, 48, 50, 53, 54, 46}
-  FmtLen = 4
+  Lefts = {2, 6, 24} FltLefts = {6, 24}
+  FmtAlphabet = {32, 43, 102, 48, 50, 53, 54, 46}
+  FmtLen = 3
   DestAlphabet = {32, 58, 48, 50, 53, 54}
   DestLen = 4
   DestSeps = {58}
   DestMax = {7}
-  RDsts = {"b", "t", "f"}
+  RDsts = {"b", "f"}
   RBases = {0}
   RAlphabet = {45, 48, 49, 57}
   RLen = 3
   VecTypes = {"b", "i", "d", "l"}
   VecLen = 1
-  Ks = {7, 8, 15, 16, 31, 32, 63, 64}
+  Ks = {7, 15, 31, 63, 64}
   FltDesign = FALSE
 INVARIANTS XDesignSound XDigitsSound XPrintedSound
 ACTION_CONSTRAINT Emit
